@@ -6,8 +6,9 @@ CONSTANTS
   RawSets = {"skew", "ties", "tsel"}
   MultiSets = {"m1", "m2", "m3"}
   RotElems = {1, 2, 3, 4, 5, 6, 7, 8, 9, 10, 11}
+  RCoefs = {100, 90, 70, 50}
   Kinds = {"AH", "AE", "PCA", "MAF", "NS", "ROT"}
   MaxLen = 3
 CONSTRAINT Emit
-INVARIANT TypeOK NormalFormsIrreducible RoundTripIsIdentity NoResidue RotationGroup SameIsSymmetricOnKeys
+INVARIANT SupportState TypeOK NormalFormsIrreducible RoundTripIsIdentity NoResidue RotationGroup SameIsSymmetricOnKeys
 CHECK_DEADLOCK FALSE
